@@ -40,6 +40,9 @@ class Value:
         # (several results are kept as a list: told apart from the one
         # result that is a list)
         self._several = False
+        # (something has been stored: also a nested value that is still pending,
+        # which does not count as a result yet)
+        self._stored = False
 
     def __getstate__(self):
         odict = self.__dict__.copy()
@@ -98,14 +101,15 @@ class Value:
         if isinstance(value, Value):
             value.parent = self
 
-        if self.result and self._several:
+        if self._stored and self._several:
             self._value.append(value)
-        elif self.result:
+        elif self._stored:
             self._value = [self._value]
             self._value.append(value)
             self._several = True
         else:
             self._value = value
+        self._stored = True
 
         def update(o, v):
             if isinstance(v, Value):
